@@ -63,6 +63,20 @@ theorem pinned_C07_history_rejected :
 
 example : TV.LinCheck.linCheck (SafeMap.apply (K := Nat) (V := Nat)) [(1, 7)]
       [⟨1, .getOrAdd 1 5, .val 5, 1, 4⟩, ⟨2, .delete 1, .unit, 2, 3⟩] = true := by decide
+
+/-! ### the decision procedure the driver runs on recorded histories is sound and complete
+
+`linCheck` answers `true` exactly when a linearization exists: a permutation of the recorded operations that is legal for
+the sequential specification and respects real time.  (Completeness needs well-stamped records, `c ≤ e`, which the
+recorder's single atomic counter guarantees; without it `linCheck_complete_needs_wellStamped` is a counterexample.) -/
+theorem C07_lincheck_sound {σ Op Ret : Type} [DecidableEq Ret] (apply : σ → Op → σ × Ret) (s0 : σ) (h : List (TV.LinCheck.Rec Op Ret)) :
+    TV.LinCheck.linCheck apply s0 h = true → ∃ l, TV.LinCheck.IsLinearization apply s0 h l :=
+  TV.LinCheck.linCheck_sound apply s0 h
+
+theorem C07_lincheck_iff {σ Op Ret : Type} [DecidableEq Ret] (apply : σ → Op → σ × Ret) (s0 : σ) (h : List (TV.LinCheck.Rec Op Ret))
+    (hws : ∀ o ∈ h, ¬ (o.e < o.c)) :
+    TV.LinCheck.linCheck apply s0 h = true ↔ ∃ l, TV.LinCheck.IsLinearization apply s0 h l :=
+  TV.LinCheck.linCheck_iff apply s0 h hws
 ''',
 "C11c": '''/-! witness: the pinned Pop (emptiness test outside the lock) lets two Pops on a one-element stack both pass the test; the second
     one indexes an empty slice. -/
@@ -75,7 +89,7 @@ theorem pinned_C11_two_pops_panic :
     d.1.2 = true := by decide
 ''',
 }
-imports = {"C07":"import TV.Proofs.LockedObject\nimport TV.Model.LinCheck\n","C08":"import TV.Proofs.LockedObject\n","C11c":"import TV.Proofs.LockedObject\n"}
+imports = {"C07":"import TV.Proofs.LockedObject\nimport TV.Model.LinCheck\nimport TV.Proofs.LinCheck\n","C08":"import TV.Proofs.LockedObject\n","C11c":"import TV.Proofs.LockedObject\n"}
 for prop in titles:
     with open(f"{base}/Properties/{prop}.lean","w") as f:
         f.write(imports[prop])
